@@ -5,27 +5,42 @@ From V.C11 Require Import Model Proofs.
 Import ListNotations.
 Open Scope N_scope.
 
-(* Event grammar per peer, for every configuration and every history of events in which Connection
-   tasks close promptly (no Gate / gated TaskDie): NotificationStreamOpened and
-   NotificationStreamClosed alternate strictly, starting with Opened, and no
-   NotificationStreamOpenFailure is reported between an Opened and its Closed, and
-   NotificationReceived is delivered only between an Opened and its Closed — also when the
-   notification was still queued in the handle while the stream closed (NotifyDie)
-   (`grammar` returns None on the first offending event). *)
+(* Event grammar per peer, for every configuration and EVERY history of events (user commands, remote
+   behaviour, validation answers, disconnects, Connection tasks that close their substreams promptly, slowly
+   or never): what the user is handed is such that NotificationStreamOpened and NotificationStreamClosed
+   alternate strictly, starting with Opened, no NotificationStreamOpenFailure is reported between an Opened
+   and its Closed, and NotificationReceived is delivered only between an Opened and its Closed — also when
+   the notification was still queued in the handle while the stream closed (NotifyDie)
+   (`grammar` returns None on the first offending event). Holds since the repair of finding class 1:
+   NotificationProtocol reports the stream closed itself when it stops tracking it as open; the later
+   report of the Connection task is recognised by its stream identifier and ignored (Model.drain). *)
 Theorem C11_alternation :
   forall (c : cfg) (ops : list op),
-    forallb prompt_op ops = true ->
     exists h, grammar (fun _ => false) (events (fst (run c init ops))) = Some h.
-Proof. exact alternation_prompt. Qed.
+Proof. exact alternation_all. Qed.
 Print Assumptions C11_alternation.
 
-(* Without the promptness assumption the grammar fails (finding class 1): a stream whose Connection
-   task is slow to close is re-opened by the remote before the old Closed is reported. *)
-Theorem C11_alternation_refuted :
-  exists (c : cfg) (ops : list op),
-    grammar (fun _ => false) (events (fst (run c init ops))) = None.
-Proof. exact C11_alternation_refuted_pf. Qed.
-Print Assumptions C11_alternation_refuted.
+(* Before the repair (coq/C11/Before.v: the model of the code in which only the Connection task reported
+   NotificationStreamClosed, after closing its substreams): the user closes a stream whose Connection task
+   is slow to close, the remote re-opens, the old task finishes: Opened, (Validate,) Opened, Closed, Closed
+   — and the late Closed removes the NEW sink from the handle, which kills the new stream. The same history
+   in the repaired model: Opened, Closed, Validate, Opened. *)
+Theorem C11_alternation_before_fix_refuted :
+  Before.events (fst (Before.run cfg_w_before Before.init w_slow_close_before)) =
+    [Before.UOpened 0 Before.DOut; Before.UValidate 0; Before.UOpened 0 Before.DIn; Before.UClosed 0; Before.UClosed 0] /\
+  Before.grammar (fun _ => false) (Before.events (fst (Before.run cfg_w_before Before.init w_slow_close_before))) = None /\
+  events (fst (run cfg_w init w_slow_close)) = [UOpened 0 DOut; UClosed 0; UValidate 0; UOpened 0 DIn].
+Proof. exact C11_alternation_before_fix_refuted_pf. Qed.
+Print Assumptions C11_alternation_before_fix_refuted.
+
+(* The invariant behind it, in every reachable state: the user sees a stream of a peer open (the handle
+   lists the peer) exactly when the protocol tracks one as open, and the sink the handle holds is the one
+   of that stream. *)
+Theorem C11_user_view_is_protocol_view :
+  forall (c : cfg) (s : st), reachable c s ->
+    (forall p, hopen s p = is_open (ps s p)) /\ (forall p k, ps s p = Some (Open k) -> hsink s p = Some k).
+Proof. exact C11_user_view_is_protocol_view_pf. Qed.
+Print Assumptions C11_user_view_is_protocol_view.
 
 (* A stream is reported opened only in a step that starts with the inbound substream accepted
    (local handshake being sent or sent, which only on_validation_result(Accept) and the auto-accept
@@ -36,25 +51,30 @@ Theorem C11_opened_needs_accepted_inbound :
 Proof. exact step_opened. Qed.
 Print Assumptions C11_opened_needs_accepted_inbound.
 
-(* When the connection to a peer with an open stream is lost, NotificationStreamClosed is reported in
-   the same step (prompt histories; with a slow Connection task it is reported when the task is done). *)
+(* When the connection to a peer with an open stream is lost, NotificationStreamClosed is handed to the user
+   in the same step, in every reachable state — however long the Connection task takes to close. *)
 Theorem C11_closed_on_disconnect :
-  forall (c : cfg) (ops : list op) (x : st * list uev * list call) (p : peer) (k : N)
-         (s' : st) (ev : list uev) (calls : list call),
-    forallb prompt_op ops = true -> In x (fst (run c init ops)) ->
-    conn (fst (fst x)) p = true -> ps (fst (fst x)) p = Some (Open k) ->
-    step c (fst (fst x)) (ConnClosed p) = Some (s', ev, calls) -> In (UClosed p) ev.
-Proof. exact closed_on_disconnect_prompt. Qed.
+  forall (c : cfg) (s : st) (p : peer) (k : N) (s' : st) (ev : list uev) (calls : list call),
+    reachable c s -> conn s p = true -> ps s p = Some (Open k) ->
+    step c s (ConnClosed p) = Some (s', ev, calls) -> In (UClosed p) ev.
+Proof. exact C11_closed_on_disconnect_pf. Qed.
 Print Assumptions C11_closed_on_disconnect.
 
 Theorem C11_closed_on_user_close :
-  forall (c : cfg) (ops : list op) (x : st * list uev * list call) (p : peer) (k : N)
-         (s' : st) (ev : list uev) (calls : list call),
-    forallb prompt_op ops = true -> In x (fst (run c init ops)) ->
-    ps (fst (fst x)) p = Some (Open k) ->
-    step c (fst (fst x)) (CmdClose p) = Some (s', ev, calls) -> In (UClosed p) ev.
-Proof. exact closed_on_user_close_prompt. Qed.
+  forall (c : cfg) (s : st) (p : peer) (k : N) (s' : st) (ev : list uev) (calls : list call),
+    reachable c s -> ps s p = Some (Open k) ->
+    step c s (CmdClose p) = Some (s', ev, calls) -> In (UClosed p) ev.
+Proof. exact C11_closed_on_user_close_pf. Qed.
 Print Assumptions C11_closed_on_user_close.
+
+(* A NotificationStreamClosed report that the handle does not ignore removes the sink it holds for the peer;
+   in no step of any history is that the sink of a Connection task that is still running (the task would
+   see its notification channels closed and end the stream): the third component of drain is empty. *)
+Theorem C11_delivered_close_kills_nothing :
+  forall (c : cfg) (s : st) (o : op) (s1 : st) (ev : list uev) (cl : list call) (s2 : st) (dr : list peer) (ks : list N),
+    reachable c s -> main_handler c s o = Some (s1, ev, cl) -> drain s1 ev = (s2, dr, ks) -> ks = [].
+Proof. exact C11_delivered_close_kills_nothing_pf. Qed.
+Print Assumptions C11_delivered_close_kills_nothing.
 
 (* ---- no stuck states ----
    The run function stops at the first stuck step (a debug_assert!(false) / Poisoned survivor of the
@@ -283,31 +303,37 @@ Theorem C11_lazy_no_stuck :
 Proof. exact C11_lazy_no_stuck_pf. Qed.
 Print Assumptions C11_lazy_no_stuck.
 
-(* nothing is lost and nothing is reordered: what the user was handed from the queue, followed by what is
-   still queued (in the channel or with a waiting producer), is exactly what was emitted, in order; *)
+(* nothing is lost and nothing is reordered: what the polls took from the queue (events handed to the user
+   and, in front of them, Closed reports that the handle ignores), followed by what is still queued (in the
+   channel or with a waiting producer), is exactly what was emitted, in order; *)
 Theorem C11_event_channel_no_loss :
   forall (c : cfg) (cap : nat) (gs : list lop),
     ltaken_run c cap linit gs ++ lq (lfinal c cap linit gs) = lemitted_run c cap linit gs.
 Proof. exact C11_event_channel_no_loss_pf. Qed.
 Print Assumptions C11_event_channel_no_loss.
 
-(* what a step takes from the queue is what `handle.next()` returns, and a poll always gets the oldest
-   queued event, whatever the capacity *)
+(* one step: what it takes from the queue is accounted for, and when the poll hits an event in the channel
+   that the handle does not ignore, what `handle.next()` returns is what the handle makes of the events taken
+   (Model.delivered: ignored reports vanish, a Connection task's report that is not ignored is handed out
+   as NotificationStreamClosed); a poll gets the oldest such event, whatever the capacity *)
 Theorem C11_event_channel_step :
   forall (c : cfg) (cap : nat) (l : lst) (g : lop) (l' : lst) (ev : list uev) (cl : list call),
     lstep c cap l g = Some (l', ev, cl) ->
-    ltaken l g ++ lq l' = lq l ++ lemitted c cap l g /\ (ltaken l g <> [] -> ev = ltaken l g).
+    ltaken cap l g ++ lq l' = lq l ++ lemitted c cap l g /\
+    (snd (fst (poll_events cap (ls l) (lq l))) <> None \/ g <> LPoll -> ev = delivered (ls l) (ltaken cap l g)).
 Proof. exact lstep_fifo. Qed.
 Print Assumptions C11_event_channel_step.
 
 Theorem C11_poll_delivers_oldest :
-  forall (c : cfg) (cap : nat) (l : lst) (e : uev) (rest : list uev),
-    lq l = e :: rest -> exists l' cl, lstep c cap l LPoll = Some (l', [e], cl).
+  forall (c : cfg) (cap : nat) (l : lst) (dd : list uev) (e : uev) (rest : list uev),
+    poll_events cap (ls l) (lq l) = (dd, Some e, rest) ->
+    exists l' cl, lstep c cap l LPoll = Some (l', delivered (ls l) [e], cl).
 Proof. exact lpoll_delivers. Qed.
 Print Assumptions C11_poll_delivers_oldest.
 
 (* the capacity only delays: two capacities, the same schedule, no event scheduled while the loop is
-   parked: same protocol states, same queue, same deliveries at every step *)
+   parked and no poll cut short by the capacity (poll_cut: every event in the channel was an ignored report
+   and more is queued with waiting producers): same protocol states, same queue, same deliveries at every step *)
 Theorem C11_capacity_only_delays :
   forall (c : cfg) (cap1 cap2 : nat) (gs : list lop),
     never_blocked c cap1 linit gs = true -> never_blocked c cap2 linit gs = true ->
@@ -325,7 +351,7 @@ Print Assumptions C11_capacity_only_delays.
 Theorem C11_gate_is_newest_sink :
   forall (c : cfg) (s : st) (p : peer),
     reachable c s -> hopen s p = true -> hsink s p = lastt s p /\ lastt s p <> None.
-Proof. intros c s p R. apply (reachable_GInv c s R). Qed.
+Proof. intros c s p R. apply (reachable_GSInv c s R). Qed.
 Print Assumptions C11_gate_is_newest_sink.
 
 (* With a late-polling user the test is modelled as written (Model.sink_is): for every schedule the event
@@ -342,7 +368,8 @@ Print Assumptions C11_lazy_queue_lifecycle_only.
 Theorem C11_lazy_notification_in_its_period :
   forall (c : cfg) (cap : nat) (l l' : lst) (ev : list uev) (cl : list call) (p : peer),
     Forall not_notif (lq l) -> lstep c cap l LPoll = Some (l', ev, cl) -> In (UNotif p) ev ->
-    lq l = [] /\ exists k, In (p, k) (lnf l) /\ hopen (ls l) p = true /\ hsink (ls l) p = Some k.
+    snd (fst (poll_events cap (ls l) (lq l))) = None /\
+    exists k, In (p, k) (lnf l) /\ hopen (ls l) p = true /\ hsink (ls l) p = Some k.
 Proof. exact lpoll_notif. Qed.
 Print Assumptions C11_lazy_notification_in_its_period.
 
@@ -363,7 +390,7 @@ Example C11_parked_handler_resumes :
    (false, [UFail 0 E_REJECTED], [])].
 Proof. vm_compute. reflexivity. Qed.
 
-(* non-vacuity: a prompt history that opens a stream and closes it *)
+(* non-vacuity: a history that opens a stream and closes it *)
 Example C11_notification_dropped_after_close :
   events (fst (run cfg_w init (open_by_user ++ [Notify 0; NotifyDie 0 false]))) =
   [UOpened 0 DOut; UNotif 0; UClosed 0].
@@ -391,6 +418,7 @@ Example C11_send_delivered_in_its_period :
 Proof. vm_compute. split; reflexivity. Qed.
 
 Example C11_open_close_run :
-  forallb prompt_op (open_by_user ++ [CmdClose 0]) = true /\
-  events (fst (run cfg_w init (open_by_user ++ [CmdClose 0]))) = [UOpened 0 DOut; UClosed 0].
+  events (fst (run cfg_w init (open_by_user ++ [CmdClose 0]))) = [UOpened 0 DOut; UClosed 0] /\
+  (* a slow close: the user is told at once, the task's own report later is ignored *)
+  events (fst (run cfg_w init (open_by_user ++ [Gate 0; CmdClose 0; Release 0]))) = [UOpened 0 DOut; UClosed 0].
 Proof. vm_compute. split; reflexivity. Qed.
